@@ -49,7 +49,8 @@ std::string Op::to_text() const {
         case OP_ANNO: put(s, "sig", sig); put(s, "a", a); put(s, "n", n); put(s, "st", st); put(s, "at", at); put(s, "grp", grp); putu(s, "y", ybits); putu(s, "gs", gs); break;
         case OP_UTC: put(s, "sig", sig); put(s, "a", a); put(s, "b", b); break;
         case OP_USER: put(s, "meta", meta); put(s, "st", st); put(s, "n", n); putu(s, "gs", gs); break;
-        case OP_FLUSH: case OP_CLOSE: break;
+        case OP_FLUSH: if (en) put(s, "en", en); break;
+        case OP_CLOSE: break;
         case OP_FLAGS: put(s, "en", en); break;
         case RD_LEN: case RD_SIGNAL: put(s, "sig", sig); break;
         case RD_FSR: case RD_FSR_F32: put(s, "sig", sig); s += std::string(" dt=") + dt_name[dtype]; put(s, "a", a); put(s, "n", n); put(s, "cold", cold); break;
